@@ -1205,6 +1205,17 @@ pub async fn count_polls<T>(fut: impl Future<Output = T>) -> (T, usize) {
     (v, polls)
 }
 
+/// Yield to the scheduler from synchronous code running inside a task (for instance a callback that the code
+/// under test invokes in the middle of one of its handlers): the other runnable tasks get a turn before the
+/// caller continues. Outside an execution it does nothing.
+pub fn yield_sync() {
+    if !active() || std::thread::panicking() {
+        return;
+    }
+    with_exec(|e| e.yielded = true);
+    shuttle::thread::yield_now();
+}
+
 /// Yield once to the scheduler from async harness code: by default the longest-waiting runnable
 /// task runs next (the yielding task stays an alternative)
 pub async fn yield_now() {
